@@ -3949,3 +3949,108 @@ def errors_propagate(specs):
                         "no path of %s tests the result of %s" % (f.name, what)})
         return obs
     return fn
+
+
+# --------------------------------------------------------------------------
+# C04 / C11: MCS send-data-request header built by mcs::Client::write (T.125 SendDataRequest, PER)
+# --------------------------------------------------------------------------
+MCS_SEND_NATIVE = {"test": "verif_replay_mcs_send_data_request", "files": {
+    "src/core/x224.rs": "\n#[cfg(test)]\npub fn verif_new_x224<S: Read + Write>(transport: tpkt::Client<S>) -> Client<S> { Client::new(transport, Protocols::ProtocolSSL) }\n",
+    "src/core/mcs.rs": """
+#[cfg(test)]
+mod verif_replay_mcs_send_mod {
+    use super::*;
+    use std::io::{self, Cursor, Read, Write};
+    use std::sync::{Arc, Mutex};
+    use model::link::{Link, Stream};
+    struct Tap { out: Arc<Mutex<Vec<u8>>> }
+    impl Read for Tap { fn read(&mut self, _b: &mut [u8]) -> io::Result<usize> { Ok(0) } }
+    impl Write for Tap { fn write(&mut self, b: &[u8]) -> io::Result<usize> { self.out.lock().unwrap().extend_from_slice(b); Ok(b.len()) } fn flush(&mut self) -> io::Result<()> { Ok(()) } }
+    #[test]
+    fn verif_replay_mcs_send_data_request() {
+        let _ = Cursor::new(vec![0u8]);
+        for (user, chan) in [(1001u16, 1003u16), (1002, 1004), (1007, 1003), (0xffff, 0xfffe), (1257, 0x0102)].iter() {
+            for n in [0usize, 1, 0x7f, 0x80, 0x81, 0x100, 1000, 0x7fff - 8].iter() {
+                let out = Arc::new(Mutex::new(vec![]));
+                let x = x224::verif_new_x224(tpkt::Client::new(Link::new(Stream::Raw(Tap { out: out.clone() }))));
+                let mut c = Client::new(x);
+                c.user_id = Some(*user);
+                c.channel_ids.insert("global".to_string(), *chan);
+                let payload: Vec<u8> = (0..*n).map(|i| (i * 5 + 3) as u8).collect();
+                c.write(&"global".to_string(), payload.clone()).unwrap();
+                let b = out.lock().unwrap().clone();
+                // TPKT (4) + X.224 data header (3) + MCS SendDataRequest
+                let mut exp = vec![0x64u8, ((user - 1001) >> 8) as u8, (user - 1001) as u8, (chan >> 8) as u8, *chan as u8, 0x70];
+                if *n > 0x7f { exp.push(0x80 | (n >> 8) as u8); exp.push(*n as u8); } else { exp.push(*n as u8); }
+                exp.extend_from_slice(&payload);
+                assert_eq!(&b[..4], &[3u8, 0, ((exp.len() + 7) >> 8) as u8, (exp.len() + 7) as u8][..], "TPKT header for user {} channel {} payload {}", user, chan, n);
+                assert_eq!(&b[4..7], &[2u8, 0xf0, 0x80][..], "X.224 data header");
+                assert_eq!(&b[7..], &exp[..], "send data request for user {} channel {} payload of {} bytes", user, chan, n);
+            }
+        }
+    }
+}
+"""}}
+
+
+def mcs_send_data_request(ctx, mir, stats):
+    """E3 over mcs::Client::write: the six elements handed to the X.224 layer, in order, are the SendDataRequest opcode byte, initiator = user id - 1001
+    (for every assigned user id >= 1001, SMT), the channel id looked up under the requested channel name, 0x70 (priority/segmentation), the PER length of
+    exactly the message that follows, and that message; the result of the lower layer is returned."""
+    f = find_fn(mir, r"^mcs::<impl at src/core/mcs\.rs[^>]*>::write$")
+    se = SymExec(f, stats, loop_bound=0, max_paths=4000).run()
+    paths = [p for p in se.finished if calls_on(p.events, r"x224::Client::<S>::write::<")]
+    if not paths:
+        raise Inconclusive("ENCODING-FAILED: no path of mcs::Client::write reaches x224::Client::write")
+    p = paths[0]
+    pushes = calls_on(p.events, r"Vec::<Box<dyn Message>>::push$")
+    vals = [resolve_source(p.events, i, ev[4][1], depth=10) for i, ev in pushes]
+    obs = []
+
+    def ob(oid, ok, good, bad, native=True, cex=None):
+        obs.append({"id": "mcs-write:" + oid, "ok": ok, "functions": [f.name], "where": f.name, "needs_native": native, "native": None if ok else MCS_SEND_NATIVE, "cex": cex, "detail": good if ok else bad})
+    ob("six-elements", len(vals) == 6, "six elements are sent", "%d elements are sent: %s" % (len(vals), [v[:50] for v in vals]))
+    if len(vals) != 6:
+        return obs
+    ok = re.match(r"^CALL Box::<u8>::new\(CALL mcs_pdu_header\(", vals[0]) is not None and "SendDataRequest" in " ".join(e[3] for e in p.events if e[0] == "assign")
+    hdr = calls_on(p.events, r"^mcs_pdu_header$")
+    opt = resolve_source(p.events, hdr[0][0], hdr[0][1][4][1], depth=4) if hdr else ""
+    ob("opcode", ok and "None" in opt, "element 0 is mcs_pdu_header(Some(SendDataRequest), None)", "element 0 is %s (options %s)" % (vals[0][:80], opt))
+    # initiator
+    be = [e for e in p.events if e[0] == "assign" and e[3].startswith("Value::<u16>::BE(")]
+    ini = se.operand(p, be[0][3][len("Value::<u16>::BE("):-1]) if be else None
+    uid = next((e[3] for e in p.events if e[0] == "callret" and re.search(r"Option::<u16>::unwrap$", e[2])), None)
+    src_uid = next((resolve_source(p.events, i, ev[4][0], depth=4) for i, ev in calls_on(p.events, r"Option::<u16>::unwrap$")), "")
+    if ini is None or uid is None or not re.search(r"\(\*_1\)\.2", src_uid) or not re.match(r"^CALL Box::<Value<u16>>::new\(Value::<u16>::BE\(", vals[1]):
+        ob("initiator", False, "", "initiator is not U16::BE(self.user_id.unwrap() - 1001) (source %s)" % src_uid)
+    else:
+        verdict, mdl, smt = se.check(p, [z3.UGE(uid, z3.BitVecVal(1001, 16)), ini != uid - z3.BitVecVal(1001, 16)], "initiator")
+        cvc5_check(smt, verdict, stats)
+        ob("initiator", verdict == "unsat", "for every assigned user id >= 1001 the initiator field is user id - 1001, big endian", "initiator differs from user id - 1001: %s" % mdl, native=False, cex=mdl)
+        for (ap, bname, msg, cond, text) in se.asserts:
+            if cond is None:
+                continue
+            verdict, mdl, smt = se.check(ap, [z3.UGE(uid, z3.BitVecVal(1001, 16)), z3.Not(cond)], "initiator arithmetic")
+            ob("no-overflow@" + bname, verdict == "unsat", "`%s` cannot fail for a user id >= 1001 (the only values read_attach_user_confirm returns)" % msg, "`%s` fails for %s" % (msg, mdl), native=False, cex=mdl)
+    okc = re.match(r"^CALL Box::<Value<u16>>::new\(Value::<u16>::BE\(", vals[2]) is not None
+    idx = calls_on(p.events, r"<HashMap<String, u16> as Index<&String>>::index$")
+    okc = okc and len(idx) == 1 and re.search(r"\(\*_1\)\.3", resolve_source(p.events, idx[0][0], idx[0][1][4][0], depth=4)) is not None and re.sub(r"^(copy|move) ", "", idx[0][1][4][1]).strip() == "_2"
+    ob("channel", okc, "element 2 is U16::BE(self.channel_ids[channel_name]) for the requested channel name", "element 2 is not the id of the requested channel (%s)" % vals[2][:100])
+    ob("priority", re.match(r"^CALL Box::<u8>::new\(const 112_u8\)$", vals[3]) is not None, "element 3 is the byte 0x70", "element 3 is %s" % vals[3][:60])
+    wl = calls_on(p.events, r"^write_length$")
+    ln = calls_on(p.events, r" as Message>::length$")
+    okl = len(wl) == 1 and len(ln) == 1 and re.match(r"^\??&?_3$|^&_3$", resolve_source(p.events, ln[0][0], ln[0][1][4][0], depth=3).strip()) is not None
+    casts = [e for e in p.events if e[0] == "assign" and re.search(r"as u16 \(IntToInt\)", e[3])]
+    srcl = resolve_source(p.events, wl[0][0], wl[0][1][4][0], depth=3) if wl else ""
+    okl = okl and "write_length" in vals[4] and bool(casts)
+    Lsym = next((e[3] for e in p.events if e[0] == "callret" and re.search(r" as Message>::length$", e[2])), None)
+    if okl and Lsym is not None and wl[0][1][3][0] is not None:
+        verdict, mdl, smt = se.check(p, [z3.ULE(Lsym, z3.BitVecVal(0xffff, 64)), wl[0][1][3][0] != z3.Extract(15, 0, Lsym)], "length operand")
+        cvc5_check(smt, verdict, stats)
+        okl = verdict == "unsat"
+    ob("length", okl, "element 4 is per::write_length(n) with n = message.length() of the message that is sent, for every length < 65536 (SMT)", "element 4 is not the PER length of the message (%s; measured %s)" % (vals[4][:80], srcl))
+    okm = re.match(r"^CALL Box::<T>::new\(\??_3\)$", vals[5].replace("move ", "").replace("copy ", "")) is not None
+    ob("payload", okm, "element 5 is the message itself", "element 5 is %s" % vals[5][:80])
+    ret = [e for e in p.events if e[0] == "call" and e[5] == "_0"]
+    ob("result", bool(ret) and re.search(r"x224::Client::<S>::write::<", ret[-1][2]) is not None, "the result of x224::Client::write is returned", "the result of the lower layer is not what mcs::Client::write returns")
+    return obs
